@@ -34,16 +34,30 @@ package ice
 //@   ensures disconnected-only: !isFail(disconnectedTime, totalTimeToFailure) && isDisc(disconnectedTime, a.disconnectedTimeout) ==> result == ConnectionStateDisconnected
 //@   ensures no-direct-failure-with-timeout: result == ConnectionStateFailed && a.connectionState == ConnectionStateConnected ==> !isDisc(disconnectedTime, a.disconnectedTimeout)
 
-//@ func (*Agent).initialCheckingTimeout
+// Timeouts are added without wrapping around: the sum saturates at the largest duration (an overflowing sum
+// would be negative and fail the agent on the first tick).
+//@ spec macro satAdd(x int, y int) = ite(y > 0 && x > 9223372036854775807 - y, 9223372036854775807, x + y)
+//@ func addTimeouts
 //@   props C04
 //@   pure
+//@   safety overflow
+//@   requires C04 timeouts-are-not-negative: x >= 0 && y >= 0
+//@   ensures saturating-sum: result == satAdd(x, y)
+
+//@ func (*Agent).initialCheckingTimeout
+//@   props C04
+//@   safety overflow
+//@   requires C04 configured-timeouts-are-not-negative: a.disconnectedTimeout >= 0 && a.failedTimeout >= 0
+//@   pure
 //@   ensures disabled: a.failedTimeout == 0 ==> result == 0
-//@   ensures lite-default: a.failedTimeout != 0 && a.lite && !a.disconnectedTimeoutExplicit ==> result == 5000000000 + a.failedTimeout
-//@   ensures configured: a.failedTimeout != 0 && !(a.lite && !a.disconnectedTimeoutExplicit) ==> result == a.disconnectedTimeout + a.failedTimeout
+//@   ensures lite-default: a.failedTimeout != 0 && a.lite && !a.disconnectedTimeoutExplicit ==> result == satAdd(5000000000, a.failedTimeout)
+//@   ensures configured: a.failedTimeout != 0 && !(a.lite && !a.disconnectedTimeoutExplicit) ==> result == satAdd(a.disconnectedTimeout, a.failedTimeout)
 
 //@ func (*Agent).validateSelectedPair
 //@   props C04
-//@   site call connectionStateForDisconnection#1 assert total-time-to-failure: arg2 == ite(a.failedTimeout == 0, 0, a.failedTimeout + a.disconnectedTimeout)
+//@   safety overflow
+//@   requires C04 configured-timeouts-are-not-negative: a.disconnectedTimeout >= 0 && a.failedTimeout >= 0
+//@   site call connectionStateForDisconnection#1 assert total-time-to-failure: arg2 == ite(a.failedTimeout == 0, 0, satAdd(a.failedTimeout, a.disconnectedTimeout))
 //@   site call connectionStateForDisconnection#1 assert only-with-selected-pair: selectedPair != nil
 //@   site call updateConnectionState#1 assert connected-to-failed-only-without-disconnected-timeout: a.disconnectedTimeout >= 0 && a.failedTimeout >= 0 && a.connectionState == ConnectionStateConnected && arg1 == ConnectionStateFailed ==> a.disconnectedTimeout == 0
 //@   site call updateConnectionState#1 assert tick-edges: a.connectionState == ConnectionStateConnected || a.connectionState == ConnectionStateDisconnected ==> a.connectionState == arg1 || allowedEdge(a.connectionState, arg1)
@@ -58,7 +72,8 @@ package ice
 //@   site call EnqueueConnectionState#1 assert C06 C09 no-candidate-survives-the-failure: newState == ConnectionStateFailed ==> forall k NetworkType :: !has(a.localCandidates, k) && !has(a.remoteCandidates, k)
 //@   ensures C04 same-state-is-silent: old(a.connectionState) == newState ==> unchangedExcept()
 //@   ensures C04 state-stored: a.connectionState == newState
-//@   ensures C04 C03 only-failed-releases: newState != ConnectionStateFailed ==> unchangedExcept("H_ice.Agent.connectionState", "H_ice.handlerNotifier.*", "E_ice.ConnectionState")
+//@   ensures C04 every-entry-into-checking-starts-a-new-deadline-epoch: a.checkingEpoch == (old(a.checkingEpoch) + ite(newState == ConnectionStateChecking && old(a.connectionState) != newState, 1, 0)) % 18446744073709551616
+//@   ensures C04 C03 only-failed-releases: newState != ConnectionStateFailed ==> unchangedExcept("H_ice.Agent.connectionState", "H_ice.Agent.checkingEpoch", "H_ice.handlerNotifier.*", "E_ice.ConnectionState")
 
 // The connection state has one writer.
 //@ enumerate C04 stores ice.Agent.connectionState in (*Agent).updateConnectionState, createAgentBase
@@ -67,13 +82,15 @@ package ice
 // The periodic task body of connectivityChecks (closure `contact` -> loop task).
 //@ func (*Agent).connectivityChecks$1$1
 //@   props C04
+//@   requires C04 selector-belongs-to-this-agent: selAgent(a.selector) == a
+//@   requires C04 configured-timeouts-are-not-negative: a.disconnectedTimeout >= 0 && a.failedTimeout >= 0
 //@   ghostvar rearmed bool = false
 //@   site call Now#1 ghost rearmed := true
-//@   site call Now#1 assert deadline-restarts-only-on-entering-checking: a.connectionState == ConnectionStateChecking && lastConnectionState != ConnectionStateChecking
-//@   site call Since#1 assert deadline-measured-from-latest-entry: lastConnectionState != ConnectionStateChecking ==> rearmed
+//@   site call Now#1 assert deadline-restarts-only-on-entering-checking: a.connectionState == ConnectionStateChecking && (lastConnectionState != ConnectionStateChecking || lastCheckingEpoch != a.checkingEpoch)
+//@   site call Since#1 assert deadline-measured-from-latest-entry: lastConnectionState != ConnectionStateChecking || lastCheckingEpoch != a.checkingEpoch ==> rearmed
 //@   site call updateConnectionState#1 assert initial-deadline-only-while-checking: a.connectionState == ConnectionStateChecking && arg1 == ConnectionStateFailed && checkingTimeout != 0
 //@   site call ContactCandidates#1 assert no-checks-while-failed: a.connectionState != ConnectionStateFailed
-//@   ensures failed-tick-is-silent: old(a.connectionState) == ConnectionStateFailed ==> unchangedExcept("E_ice.ConnectionState")
+//@   ensures failed-tick-is-silent: old(a.connectionState) == ConnectionStateFailed ==> unchangedExcept("E_ice.ConnectionState", "E_uint64")
 
 // Every caller of updateConnectionState and the state it asks for.
 //@ enumerate C04 calls ice.(*Agent).updateConnectionState in (*Agent).validateSelectedPair, (*Agent).setSelectedPair, (*Agent).connectivityChecks, (*Agent).startConnectivityChecks, (*Agent).Restart, newAgentWithConfig
